@@ -180,13 +180,13 @@ theorem split_partition [DecidableEq α] {m : MeshVal α} {parts : List (MeshVal
   subst this
   exact ⟨hl, h1, h2'⟩
 
-/-- The full contract as one decidable predicate (`SplitSpec`: additionally one part per distinct
-    material, *in order of first appearance*, the first range's material first even when it has no
-    triangle): evaluated by the oracle `c03.holds.split_spec` on every implementation output, and on the
-    model below. The order / multiplicity of the parts is the part NOT proved for all inputs. -/
-def split_full : Prop :=
-  ∀ (α : Type) [DecidableEq α] (m : MeshVal α) (parts : List (MeshVal α)),
-    WF m → m.splitOnMaterials = some parts → SplitSpec m parts
+/-- **The whole split contract** (`SplitSpec`, the predicate the oracle `c03.holds.split_spec`
+    evaluates on every implementation output): with fewer than two ranges the mesh itself; otherwise
+    the written-out ranges cover every triangle, there is exactly one part per distinct material *in
+    order of first appearance* (the first range's material first, even when it has no triangle), and
+    part `i` is exactly the sub-mesh of the triangles of material `i` (`PartSpec`). -/
+theorem split_spec [DecidableEq α] {m : MeshVal α} {parts : List (MeshVal α)} (h : WF m)
+    (hs : m.splitOnMaterials = some parts) : SplitSpec m parts := MeshVal.split_spec h hs
 
 def sample3 : MeshVal Nat :=
   ⟨.triangle, [0, 2, 1, 2, 0, 3, 4, 4, 0], [⟨1, 7⟩, ⟨0, 9⟩, ⟨1, 8⟩, ⟨1, 7⟩],
